@@ -7,7 +7,7 @@ FUNCTIONS = ['flowdyn.modelphy.convection.model.timestep', 'flowdyn.modelphy.bur
              'flowdyn.modelphy.shallowwater.shallowwater1d.timestep', 'flowdyn.modelphy.euler.euler.{timestep,velocitymag}',
              'flowdyn.modeldisc.fvm1d.calc_timestep', 'flowdyn.modeldisc.fvm2dcart.calc_timestep',
              "numflux('centered') / the only flux of convection, burgers (differentiated symbolically: the model's own flux Jacobian)",
-             'cons2prim of each model']
+             'cons2prim of each model', 'flowdyn.integration.timemodel.add_res and every explicit *.step with a per-cell step array']
 BOUNDS = ('n=3 cells, arbitrary monotone faces (1D) / 2x2 grid with lx,ly symbolic (2D), all admissible states, CFL symbolic > 0; '
           'gamma in {2, 7/5}; spectral radius: characteristic polynomial of the exact Jacobian of the traced consistent flux, '
           'identity in a symbolic lambda; 2D: normal flux for an arbitrary unit normal (c,s), c^2+s^2=1')
@@ -22,6 +22,12 @@ def configs(tier):
            {'model': 'shallowwater'}]
     for g in ['2', '7/5']:
         out.append({'model': 'euler1d', 'gamma': g})
+    # last sentence of the property: with a per-cell array of steps every cell advances with its OWN value (the field time with the
+    # minimum); decided on the real step of every explicit integrator with an arbitrary right-hand side (harness shared with C05)
+    for integ in ('explicit', 'rk2', 'rk2_heun', 'rk3_heun', 'rk3ssp', 'rk4', 'lsrk25bb', 'lsrk26bb', 'lsrk4'):
+        out.append({'model': 'local-step', 'integrator': integ})
+    for g in []:
+        pass
         out.append({'model': 'euler2d', 'gamma': g})
         for nrm in ([1, 0], [0, 1], [-1, 0], [0, -1]):
             out.append({'model': 'euler2d', 'gamma': g, 'normal': nrm})
@@ -68,6 +74,9 @@ def harness(cfg, B):
     fd = B.fd
     np = B.np
     m = cfg['model']
+    if m == 'local-step':
+        from . import C05
+        return C05.harness({'integrator': cfg['integrator'], 'dt': 'local'}, B)
     cfl = B.pos('cfl', 0.1, 2.0)
     lam = B.var('lam')
     if m == 'euler2d':
